@@ -16,15 +16,12 @@ from ..harness import Harness
 from ..engine import Query
 
 # FINDINGS
-#  open   known_findings.json, scenario kf_stream_not_clean (TSBurstDetector failure handling, low severity):
-#         - `only_consecutive_sets`: after a set followed by a cycle without valid, WAIT_FOR_FIRST skips non-matching valid
-#           words without clearing consecutive_set_count (set, gap, garbage, set counts as two consecutive sets), while the
-#           same garbage directly after a set does clear it;
-#         - `reports_every_burst`: NONE_DETECTED (also the reset state) swallows one word unchecked and a first word that
-#           arrives mid-set is not taken as a new start, so a corrupted last word / truncated set also loses the next set.
-#         Outside the scenario (streams in which, after the first matching word, every valid word continues a set, and no
-#         valid word arrives in the first cycle after reset) both assertions hold; `never_on_other_data` and `config_bits`
-#         hold unconditionally.  A 15-line patch (restart_on_mismatch, no NONE_DETECTED state) makes all of them hold.
+#  fixed  TSBurstDetector failure handling (findings/C43_count_clear.patch, findings/C43_restart.patch):
+#         - `only_consecutive_sets`: after a set followed by a cycle without valid, WAIT_FOR_FIRST skipped non-matching valid
+#           words without clearing consecutive_set_count (set, gap, garbage, set counted as two consecutive sets);
+#         - `reports_every_burst`: NONE_DETECTED (also the reset state) swallowed one word unchecked and a first word that
+#           arrived mid-set was not taken as a new start, so a corrupted last word / truncated set also lost the next set.
+#         All detector assertions are now checked on every stream (no scenario predicate).
 
 PROP = "C43"
 ENCODED = [
@@ -211,10 +208,6 @@ class DetectorHarness(Harness):
         self.c_report_gaps = self.cover("report_with_idle_gaps")
         self.c_second = self.cover("second_report")
         self.c_resync = self.cover("report_after_broken_set")
-        # scenario predicate for the recorded finding (see known_findings.json / report): the stream contained, after
-        # the first word that matched a set position, a valid word that does not continue the set -- or a valid word
-        # in the very first cycle after reset.  On all other streams the detector must be exact.
-        self.kf_dirty = self.kf("kf_stream_not_clean")
         if config:
             self.v_cfg = self.viol("config_bits")
             self.c_cfg = self.cover("report_with_config_bits")
@@ -286,16 +279,6 @@ class DetectorHarness(Harness):
             m.d.ss += total.eq(tot_next)
         with m.If(dut.detected & (reports != 3)):
             m.d.ss += reports.eq(reports + 1)
-
-        started = Signal(name="g_started")
-        ever_matched = Signal(name="g_ever_matched")
-        dirty = Signal(name="g_dirty")
-        m.d.ss += started.eq(1)
-        with m.If(valid & mp):
-            m.d.ss += ever_matched.eq(1)
-        with m.If((valid & ~mp & ever_matched) | (valid & ~started)):
-            m.d.ss += dirty.eq(1)
-        m.d.comb += self.kf_dirty.eq(dirty)
 
         m.d.comb += [
             self.v_other.eq(dut.detected & (tot_next < N)),
